@@ -61,18 +61,18 @@ PROPS = {
     ),
     "C01": dict(
         title="Write-then-read round trip is lossless",
-        lean_modules=["Gowarc.Props.C01", "Gowarc.Props.C01comp"],
+        lean_modules=["Gowarc.Props.C01", "Gowarc.Props.C01comp", "Gowarc.Props.C01acc"],
         audit_namespaces=["Gowarc.Props.C01"],
         n_quick=3000, n_thorough=40000,
-        required_theorems=["C01_framing", "C01_version_line", "C01_roundtrip", "unmarshal_serialized", "unmarshalTail_rest"],
+        required_theorems=["C01_framing", "C01_version_line", "C01_roundtrip", "unmarshal_serialized", "unmarshalTail_rest", "C01_accepts", "accept_core"],
         model_assumptions=["C01_roundtrip is stated for clean header fields (canonical names, values without edge white space or LF, no '=?' in the line: everything else is exactly the two listed findings C19-F17 / C19-F15), a truthful Content-Length, and the repair options off (with repairs on the reader may rewrite fields by design: C03/C07)",
-                           "the theorem says that what is returned is exactly what was written; that it IS returned without findings for records the builder produces is checked by the round-trip oracle and the model comparison (C17/C03 give the validation side)",
-                           "the builder side (build then marshal) and gzip are covered by correspondence, not by this theorem"],
+                           "C01_accepts (validation side): a record that build returned under the strict policy is returned by unmarshal(marshal r ++ tail) under ANY reader policy/options with no error and no finding, same version, type, ordered fields and block, leaving tail; hypotheses: clean fields, caller supplied no digest fields and add-missing-digest on (caller-supplied digests are C03's subject), builder type = WARC-Type, reader skip-parse-block = builder's, unknown type => reader's unknown-type axis at ignore, reader default algorithm supported, hash output has the algorithm's size, decimal Content-Length re-parses to the block length",
+                           "gzip and the file writer/reader path are covered by correspondence (C04 theorems for the file level), not by these theorems"],
         design_ref="DESIGN.md section 5, C01",
         level_text="Executable model of build -> marshal -> unmarshal compared with the implementation on seeded records x builder options x parser options (incl. strict) x trailing bytes; "
                    "round-trip oracle on the implementation (same version, type, ordered fields, block, no finding, identical re-serialisation, tail untouched); theorems: "
                    "C01_roundtrip (composition over the full Unmarshal model: for every non-empty list of clean fields, any block bytes of the declared length - delimiters, gzip magic, nested records included - any tail, both versions, every policy with repairs off: a record returned for marshal(ver, fs, B) ++ tail has exactly the fields fs and the block B, at offset 0, leaving tail), "
-                   "unmarshal_serialized, framing lemmas",
+                   "unmarshal_serialized, framing lemmas; C01_accepts (a record the strict builder accepted comes back from Unmarshal under every reader policy with no error, no finding, identical version/type/fields/block, stream left at the tail - composition of C17_strict, the regenerated field table, C03_format_reparse, parser monotonicity and C19_clean_roundtrip)",
         level_note=COMMON_NOTE,
         known_from=["C19"],
     ),
